@@ -475,8 +475,10 @@ def job_denial(job) -> report.JobResult:
 
     def fn():
         e = cur()
-        ext = e.choose(2, "ext")
+        ext_kind = e.choose(5, "ext")  # 0 no 'extensions' key, 1 empty dict, 2 other extensions only, 3 the denial extension, 4 denial + others
+        ext = ext_kind >= 3
         has_resp = e.choose(2, "resp")
+        e.path_notes.update(extensions=ext_kind, response=has_resp)
         body = SBytes.fresh(2, "body", 0, 255)
         resp = AR.PlainTextResponse(body, SInt(status_v)) if has_resp else None
         sent = []
@@ -487,8 +489,9 @@ def job_denial(job) -> report.JobResult:
         async def receive():
             return {"type": "websocket.disconnect"}
         scope = {"type": "websocket", "headers": []}
-        if ext:
-            scope["extensions"] = {"websocket.http.response": {}}
+        if ext_kind:
+            scope["extensions"] = [None, {}, {"tls": {}, "http.response.zerocopysend": {}}, {"websocket.http.response": {}},
+                                   {"tls": {}, "websocket.http.response": {}}][ext_kind]
         drive(WebsocketDenialResponse(resp)(scope, receive, send))
         if ext and has_resp:
             if [m["type"] for m in sent] != ["websocket.http.response.start", "websocket.http.response.body"]:
@@ -506,7 +509,9 @@ def job_denial(job) -> report.JobResult:
         kind, v = r
         if kind == "exc":
             klass = v.klass if isinstance(v, Fail) else f"exception:{type(v).__name__}"
-            res.violation(f"C11/denial/{klass}", {"note": "WebsocketDenialResponse"}, repr(v), True)
+            wit = {"note": "WebsocketDenialResponse", **{k_: v_ for k_, v_ in e.path_notes.items() if k_ in ("extensions", "response")}}
+            cp = concrete_denial(wit)
+            res.violation(f"C11/denial/{klass}", wit, f"{v!r}; concrete: {cp}", cp is not None)
             return
         res.kind(v)
         res["validated"] += 0
@@ -514,6 +519,40 @@ def job_denial(job) -> report.JobResult:
     eng.explore(fn, on_path)
     res.absorb_engine(eng)
     return res
+
+
+def concrete_denial(w) -> Optional[str]:
+    """the same denial with a concrete status / body on the real classes"""
+    import asyncio
+    import baize.asgi.responses as AR
+    prev = Engine.cur
+    Engine.cur = None
+    try:
+        k = w.get("extensions", 0)
+        scope = {"type": "websocket", "headers": []}
+        if k:
+            scope["extensions"] = [None, {}, {"tls": {}, "http.response.zerocopysend": {}}, {"websocket.http.response": {}},
+                                   {"tls": {}, "websocket.http.response": {}}][k]
+        resp = AR.PlainTextResponse(b"no", 403) if w.get("response") else None
+        sent = []
+
+        async def send(m):
+            sent.append(m)
+
+        async def receive():
+            return {"type": "websocket.disconnect"}
+        asyncio.run(WebsocketDenialResponse(resp)(scope, receive, send))
+        types = [m["type"] for m in sent]
+        if k >= 3 and w.get("response"):
+            if types != ["websocket.http.response.start", "websocket.http.response.body"] or sent[0]["status"] != 403 or sent[1]["body"] != b"no":
+                return f"forwarded {types}"
+        elif types != ["websocket.close"]:
+            return f"forwarded {types} although the server does not offer the denial extension (or there is no response)"
+        return None
+    except Exception as ex:  # noqa: BLE001
+        return f"exception {type(ex).__name__}: {ex}"
+    finally:
+        Engine.cur = prev
 
 
 # ------------------------------------------------------------------ two tasks sharing one wrapper (handler + watchdog), suspending server
